@@ -2,7 +2,9 @@
 (`from undo_patterns import *`).  Each function gets the info dict of one violating behaviour as produced by
 tools/undo_pipe.py: {"preds": [[pred, event ordinal]], "schedule": {...}, "event": failing event (slim),
 "trace": [slim events up to and including the failing one]}.  Slim events carry k, r, call, ret, us, rs, uv, stk
-(id sets of every stack item BEFORE an undo/redo call), upd {ins: [{id,o,ro,cont,sub,par,kind}], del}, obs {lst, dead, gone}."""
+(id sets of every stack item BEFORE an undo/redo call), upd {ins: [{id,o,ro,cont,sub,par,kind}], del}, obs {lst, dead, gone},
+alias (undo / redo calls only: classes of element ids that carried the same value, in order of creation = an element and its
+re-created copies, including the copies made by this call)."""
 
 INVERSE = {"C12_OneStep", "C12_InverseUndo", "C12_InverseRedo", "C12_ReturnValue"}
 
@@ -31,7 +33,8 @@ def _own_ids(info):
 
 
 def c12_redo_refused_own_tombstone_neighbour(info):
-    """The inverse law fails at an undo / redo call that had to re-create a MAP ENTRY and did not: in the entry's chain
+    """The inverse law fails at an undo / redo call that had to re-create a MAP ENTRY (an entry of a map, or an ATTRIBUTE of
+    an XML element / text node: both are keyed chains `<parent>|<key>`) and did not: in the entry's chain
     everything to the right of it is a tombstone created by the manager's own replica under the tracked origin (or by an
     earlier undo / redo) -- no element of another origin is involved -- and at least one of these tombstones is recorded as
     deleted in no stack item that still existed when the entry was processed (its own stack item was passed over and
@@ -70,6 +73,64 @@ def c12_redo_refused_own_tombstone_neighbour(info):
                         and all(x in dead and x in own for x in right)
                         and any(x not in below_del and x not in ins for x in right)):
                     return True
+    return False
+
+
+def c12_undo_misses_split_copy(info):
+    """The inverse law fails at an undo / redo call that had to remove what a captured step inserted: two consecutive units
+    x, x+1 of ONE inserted run (text characters / array values: x+1 was inserted with origin x by the same transaction), both
+    recorded as insertions of a consumed stack item, had been deleted and re-created by an earlier undo / redo (the item's
+    `redone` pointer names the copy of its FIRST unit), and the copy was split afterwards (something was inserted between the
+    two copies, or one of them was deleted and re-created again): the call removed the copy of x and left the copy of x+1
+    alive.  UndoManager::try_process follows `redone` once per captured item and deletes only the block that starts there
+    (Store::follow_redone ignores the offset inside an item)."""
+    e = info.get("event")
+    if not _is_pop(e) or "stk" not in e or "obs" not in e or not e.get("alias"):
+        return False
+    if not all(p[0] in INVERSE for p in info["preds"] if p[0].startswith("C12_")):
+        return False
+    undo = e["call"]["a"] == "undo"
+    stack = e["stk"]["u" if undo else "r"]
+    left = e["us"] if undo else e["rs"]
+    if left >= len(stack):
+        return False
+    cls = {}
+    for g in e["alias"]:
+        g = [tuple(x) for x in g]
+        for x in g:
+            cls[x] = g
+    origin_of, born = {}, {}
+    for n, ev in enumerate(info.get("trace") or []):
+        for u in ev.get("upd", {}).get("ins", []):
+            origin_of[tuple(u["id"])] = tuple(u["o"])
+            born[tuple(u["id"])] = n
+    dead = {tuple(x) for x in e["obs"]["dead"]} | {tuple(x) for x in e["obs"].get("gone", [])}
+    lst = {c: [tuple(x) for x in v] for c, v in e["obs"]["lst"].items()}
+    removed_now = {tuple(x) for x in e["upd"]["del"]}
+
+    def chain_of(z):
+        for c, chain in lst.items():
+            if z in chain:
+                return chain
+        return None
+
+    for item in stack[left:]:
+        ins = _ids(item["ins"])
+        for x in ins:
+            y = (x[0], x[1] + 1)
+            if y not in ins or x not in dead or y not in dead or origin_of.get(y) != x or born.get(x) != born.get(y):
+                continue
+            cx, cy = cls.get(x, [x])[1:], cls.get(y, [y])[1:]
+            gone_x = [z for z in cx if z in removed_now]
+            alive_y = [z for z in cy if z not in dead and chain_of(z) is not None]
+            for a in gone_x:
+                for b in alive_y:
+                    chain = chain_of(b)
+                    if a not in chain:
+                        continue
+                    split = (a[0], a[1] + 1) != b or chain.index(b) != chain.index(a) + 1
+                    if split:
+                        return True
     return False
 
 
@@ -139,5 +200,15 @@ PROPOSED_KNOWN = [
              "an entry whose right neighbours in the key's chain are tombstones of the tracked origin itself that no remaining "
              "stack item records as deleted (set+remove inside one capture step that was passed over and dropped, or whose "
              "redo-stack item was consumed / cleared) -- e.g. S1 m.k1=2; S2 remove k1; S3 m.k1=5, remove k1; undo -> {} instead "
-             "of {k1:2}. Same rule as Yjs (redoItem); a repair would have to tell own tombstones from foreign ones."},
+             "of {k1:2}. Same rule as Yjs (redoItem); a repair would have to tell own tombstones from foreign ones. "
+             "Attributes of XML elements are keyed chains like map entries and show the same behaviour "
+             "(<e id=2>; remove id; set id=5 + remove id; undo -> element removed instead of <e id=2>)."},
+    {"id": "KF-C12-2", "property": "C12", "predicate": "C12_OneStep",
+     "pattern": "c12_undo_misses_split_copy",
+     "what": "undo of an insertion leaves part of it behind: the inserted run (>= 2 text characters / array values in one item) "
+             "was deleted and re-created by an earlier undo/redo, and the re-created copy was split afterwards (insertion "
+             "between the copies, or partial deletion); UndoManager::try_process follows the item's `redone` pointer once and "
+             "deletes only the first fragment of the copy (Store::follow_redone ignores offsets inside an item) -- e.g. "
+             "S1 insert 'ab'; S2 delete 'ab'; undo; S3 insert 'c' between a and b; undo; undo -> 'b' instead of ''. "
+             "Candidate repair: notes/undoxml-split-copy.patch.diff (walk the copy fragment by fragment)."},
 ]
